@@ -514,6 +514,9 @@ func TestTranscodeCorpus(t *testing.T) {
 		}
 	}
 	// every truncation of the testdata graphics that still decodes (ends inside a path or between instructions)
+	if harness.Shard() != 0 {
+		return
+	}
 	for _, f := range corpus.Testdata() {
 		for k := 5; k < len(f.Data); k++ {
 			c := StreamCase{Bytes: f.Data[:k]}
@@ -536,6 +539,7 @@ func TestTranscodeCorpus(t *testing.T) {
 // ---------------------------------------------------------------- boundary tables and the D10 witness
 
 func TestNumberTable(t *testing.T) {
+	harness.OnlyFirstShard(t)
 	st := harness.Counter("number-table", "every boundary value of the float table as LOD, NREG, low- and high-resolution coordinate, arc radius and rotation, one value per program")
 	vals := append(append([]float32{}, gen.Boundary...), gen.NonFinite...)
 	for k := -128 * 64; k <= 128*64; k += 257 {
@@ -565,6 +569,7 @@ func TestNumberTable(t *testing.T) {
 // All 120 one-byte and 15120 two-byte zero-to-one grid values through NREG and
 // arc rotation: exact survival, except the listed D10 class.
 func TestZeroToOneGrid(t *testing.T) {
+	harness.OnlyFirstShard(t)
 	st := harness.Counter("zero-to-one-grid", "all u/120 (u<120) and u/15120 (u<15120) as NREG value and arc rotation: must survive unchanged")
 	var bad []string
 	n := int64(0)
@@ -620,4 +625,22 @@ func TestZZExcluded(t *testing.T) {
 	}
 	subTrans.Label("second-generation-byte-identical", byteStable)
 	subTrans.Label("second-generation-bytes-differ-but-same-operations", byteUnstable)
+}
+
+func FuzzTranscode(f *testing.F) {
+	var seeds [][]byte
+	for _, c := range corpus.Sample(16) {
+		seeds = append(seeds, c.Data)
+	}
+	seeds = append(seeds, gen.Hostile...)
+	fz := harness.Counter("fuzz-transcode", "native coverage-guided fuzzing (go test -fuzz) of the transcoding oracle, seeded with corpus graphics (thorough tier only)")
+	harness.FuzzBytes(f, seeds, func(b []byte) error {
+		if len(b) > 4096 {
+			return nil
+		}
+		return subTrans.Eval(StreamCase{Bytes: b})
+	}, func(b []byte) {
+		p := spec.Parse(b)
+		fz.Observe(p.OK && len(p.Ops) > 2, harness.Hash(b), nil)
+	})
 }
